@@ -35,7 +35,7 @@ Tr == AllTraces[tid]
 ASSUME InitRegs
 
 NoCfg == [recursive |-> TRUE, full |-> FALSE, ty |-> "str", paced |-> TRUE, filter |-> << >>, contract |-> FALSE]
-Init == /\ tid \in 1..NTraces /\ l = 1 /\ cfg = NoCfg /\ rep = {} /\ pendp = {} /\ facts = {} /\ dfacts = {} /\ gone = [cur |-> {}, ever |-> {}] /\ win = << >> /\ winops = << >>
+Init == /\ tid \in 1..NTraces /\ l = 1 /\ cfg = NoCfg /\ rep = {} /\ pendp = {} /\ facts = {} /\ dfacts = {} /\ gone = [cur |-> {}, ever |-> {}, ret |-> {}] /\ win = << >> /\ winops = << >>
         /\ pre = {} /\ s1 = << >> /\ s2 = << >> /\ rootdel = 0 /\ viol = {}
 
 Line(k) == l <= Len(Tr) /\ Tr[l].e = k
@@ -240,7 +240,10 @@ OpBegin == /\ Line("opb") /\ Consume
                           Moved(S) == IF o.k = "rename" /\ o.kind = "dir"
                                       THEN {o.q \o SubSeq(g, Len(o.p) + 1, Len(g)) : g \in {h \in S : Pre(o.p, h) /\ h # o.p}} ELSE {}
                           out == IF o.k = "moveout" /\ o.kind = "dir" THEN {o.p} ELSE {} IN
-                      [cur |-> ((gone.cur \ made) \cup Moved(gone.cur)) \cup out, ever |-> (gone.ever \cup Moved(gone.ever)) \cup out]
+                      \* .ret: old paths of departed directories that came back (movein with `back`): at the next drain point the
+                      \* library has re-keyed their watch (same inode, same watch descriptor) and the old path is excused no more
+                      [cur |-> ((gone.cur \ made) \cup Moved(gone.cur)) \cup out, ever |-> (gone.ever \cup Moved(gone.ever)) \cup out,
+                       ret |-> (gone.ret \cup Moved(gone.ret)) \cup (IF o.k = "movein" /\ Len(o.back) > 0 THEN {o.back} ELSE {})]
            /\ winops' = Append(winops, Tr[l].op)
            /\ UNCHANGED <<cfg, rep, pendp, win, pre, s1, s2, rootdel, viol>>
 OpEnd == /\ Line("op") /\ Consume /\ UNCHANGED <<cfg, rep, pendp, facts, dfacts, gone, win, winops, pre, s1, s2, rootdel, viol>>
@@ -293,7 +296,8 @@ Quiescent ==
                      /\ winops[1].k \in {"mkdir", "creat", "write", "read", "chmod", "unlink", "rmdir", "rename", "moveout", "movein"}
                   THEN ContractClauses(winops[1], win) \cup C14Clauses(winops[1], win) ELSE {})
     /\ pendp' = {} /\ win' = << >> /\ winops' = << >>
-    /\ UNCHANGED <<cfg, facts, dfacts, gone, s1, s2, rootdel>>
+    /\ gone' = [gone EXCEPT !.ever = {g \in @ : ~\E r \in gone.ret : Pre(r, g)}, !.ret = {}]
+    /\ UNCHANGED <<cfg, facts, dfacts, s1, s2, rootdel>>
 
 Final == /\ Line("final") /\ Consume
          /\ viol' = viol
